@@ -587,6 +587,14 @@ func c18RunChildren(rep *kit.Report, unit string, specs []c18ChildSpec, workers 
 			rep.Nontrivial(fmt.Sprintf("%s child %d crash %s at %s", unit, i, fn, stage))
 			rep.Sample(replay)
 			switch {
+			case string(stage) == "stopping" && strings.Contains(m, "failed to recover from Raft log"):
+				// Server.Stop() arrived while the server was still replaying its
+				// Raft log (slow machine): closing the NATS connection makes the
+				// recovery step fail and the FSM panics by design.  A fail-stop of
+				// the restart path, not something C18 states anything about; the
+				// scenario has no verdict.
+				rep.Count("server_stopped_while_still_replaying_its_raft_log_(fail-stop,_not_judged)", 1)
+				rep.Inconc(fmt.Sprintf("%s child %d: the server was stopped while still replaying its Raft log and failed stop (%s)", unit, i, m))
 			case string(stage) == "stopping":
 				rep.Violation("C18:"+unit+":crash-while-stopping:"+fn,
 					fmt.Sprintf("the server process died (%s, first server frame %s) inside Server.Stop()", m, fn), replay)
